@@ -48,7 +48,9 @@ func (c *ClusterNode) syncUserCollections() error {
 						Bucket:    USERCOLSBUCKETKEY,
 					}
 				}
-				postage[destination].KeyValues[string(k)] = v
+				// The value belongs to the read transaction, we send it after
+				// the transaction is over so it needs to be copied.
+				postage[destination].KeyValues[string(k)] = append([]byte(nil), v...)
 			}
 			return nil
 		})
